@@ -419,6 +419,43 @@ theorem step_held'_mem {d : Sched ℚ σ} {s s' : StState ℚ σ} {a : StAct ℚ
     | put q sch stamp h1 => exact Or.inl (Or.inr (by simpa [finL, enqueue] using hp))
     | _ => exact Or.inl (Or.inr (by simpa [finL] using hp))
 
+/-- `total_packets` (the sum of the per-flow counters) is the number of packets waiting or in transmission -/
+def Tot (s : StState ℚ σ) : Prop := qcTotal s.queueCount = ((held s).length : Int)
+
+theorem init_tot (sch : σ) (t0 : ℚ) : Tot (init sch t0) := by
+  simp [Tot, init, qcTotal, held, inHand, waiting]
+
+theorem step_tot {d : Sched ℚ σ} {s s' : StState ℚ σ} {a : StAct ℚ} {o : StOut} (hi : GInv s)
+    (ht : Trans d s a s' o) (h : Tot s) : Tot s' := by
+  have hl := (step_ginv hi ht).2.length_eq
+  simp only [List.length_append] at hl
+  unfold Tot at h ⊢
+  cases ht with
+  | put p sch stamp h1 =>
+    simp only [enqueue, qcTotal_bump, entered, left, List.length_cons, List.length_nil] at hl ⊢
+    omega
+  | sendFire p due h1 h2 =>
+    simp only [release, qcTotal_bump, entered, left, List.length_cons, List.length_nil] at hl ⊢
+    omega
+  | initBlock h1 h2 => simp only [entered, left, List.length_nil] at hl ⊢; omega
+  | initServe id it rest h1 h2 => simp only [entered, left, List.length_nil] at hl ⊢; omega
+  | handoff id it rest h1 h2 => simp only [entered, left, List.length_nil] at hl ⊢; omega
+  | resume it h1 => simp only [entered, left, List.length_nil] at hl ⊢; omega
+  | sendInit p h1 h2 h3 => simp only [entered, left, List.length_nil] at hl ⊢; omega
+  | doneBlock p sch h1 h2 h3 => simp only [entered, left, List.length_nil] at hl ⊢; omega
+  | doneServe p sch id it rest h1 h2 h3 => simp only [entered, left, List.length_nil] at hl ⊢; omega
+  | tick t h1 => simp only [entered, left, List.length_nil] at hl ⊢; omega
+  | sample b => simp only [entered, left, List.length_nil] at hl ⊢; omega
+
+/-- `total_packets == 0` iff nothing is waiting or in transmission -/
+theorem Tot.zero_iff {s : StState ℚ σ} (h : Tot s) : qcTotal s.queueCount = 0 ↔ held s = [] := by
+  unfold Tot at h
+  rw [h]
+  constructor
+  · intro h0
+    exact List.eq_nil_of_length_eq_zero (by exact_mod_cast h0)
+  · intro h0; simp [h0]
+
 theorem run_ginv' {d : Sched ℚ σ} {s0 s : StState ℚ σ} {ins outs : List SPkt} (h0 : GInv s0)
     (h : Run d s0 s ins outs) : GInv s := (run_ginv h0 h).1
 
@@ -449,7 +486,7 @@ theorem issueGet_no_raise {σ : Type} (s : StState ℚ σ) (ch : Option Nat) (e 
 /-- **No exception from the skeleton**: with a positive rate, a `put` whose stamp computation succeeds and a
 bookkeeping burst that succeeds, every failure of `step` is a `reject` (a wrong label), never a `raise`. -/
 theorem step_no_raise_of {d : Sched ℚ σ} (hrate : 0 < d.rate) (s : StState ℚ σ) (a : StAct ℚ)
-    (hput : ∀ p, a = .put p → ∃ r, d.onPut s.sch s.now p = .ok r)
+    (hput : ∀ p, a = .put p → ∃ r, d.onPut s.sch s.now (qcTotal s.queueCount) p = .ok r)
     (hdone : ∀ p, s.fin = some p → ∃ r, d.onDone s.sch s.now p = .ok r) (e : String) :
     step d s a ≠ .error (.raise e) := by
   cases a with
